@@ -71,11 +71,49 @@ def write_sites(attr, files=None, package='cassandra'):
     return res
 
 
+def _references(name, package='cassandra'):
+    """[(relative file, enclosing qualname)] of every use of the identifier `name` (a Name or an attribute access) other than its own definition"""
+    root = os.path.join(REPO, package)
+    res = []
+    for d, _, fs in os.walk(root):
+        for f in fs:
+            if not f.endswith('.py'):
+                continue
+            p = os.path.join(d, f)
+            try:
+                src = open(p).read()
+                if name not in src:
+                    continue
+                tree = ast.parse(src, p)
+            except SyntaxError:
+                continue
+            q = _qual_index(tree)
+            rel = os.path.relpath(p, REPO)
+            for n in ast.walk(tree):
+                if (isinstance(n, ast.Name) and n.id == name) or (isinstance(n, ast.Attribute) and n.attr == name):
+                    res.append((rel, q.get(id(n), '<module>')))
+    return res
+
+
 def frame_ok(attr, allowed, files=None):
-    """(ok, offending sites): every write site of `attr` lies in one of the `allowed` 'file::qualname' entries."""
-    bad = []
+    """(ok, offending sites, all sites): every write site of `attr` lies in one of the `allowed` 'file::qualname' entries - or in a private helper
+    (name starting with an underscore) that is used by nothing but allowed sites (and other such helpers): extracting a few statements of an allowed
+    function into a helper does not widen the frame, a write in a function somebody else can call does."""
+    allowed = set(allowed)
     sites = write_sites(attr, files)
-    for rel, qn, ln, kind in sites:
-        if '%s::%s' % (rel, qn) not in allowed:
-            bad.append('%s::%s:%d(%s)' % (rel, qn, ln, kind))
+    pending = [(rel, qn, ln, kind) for rel, qn, ln, kind in sites if '%s::%s' % (rel, qn) not in allowed]
+    accepted = set()
+    changed = True
+    while changed and pending:
+        changed = False
+        for rel, qn, ln, kind in list(pending):
+            name = qn.split('.')[-1]
+            if not name.startswith('_') or name.startswith('__'):
+                continue
+            refs = [r for r in _references(name) if '%s::%s' % r != '%s::%s' % (rel, qn)]
+            if refs and all(('%s::%s' % r) in allowed or ('%s::%s' % r) in accepted for r in refs):
+                accepted.add('%s::%s' % (rel, qn))
+                pending = [x for x in pending if '%s::%s' % (x[0], x[1]) != '%s::%s' % (rel, qn)]
+                changed = True
+    bad = ['%s::%s:%d(%s)' % (rel, qn, ln, kind) for rel, qn, ln, kind in pending]
     return (not bad), bad, sites
